@@ -210,7 +210,8 @@ theorem noNext_eval (pre L rest : Str) (hL : '\n' ∉ L) (hrest : rest = [] ∨ 
       else if lstrip L == "Raises:".toList then some ((pre.length : Int) - 1) else none := by
   unfold lastIdxIfNoNextTokenCount
   have hdrop : (pre ++ L ++ rest).drop pre.length = L ++ rest := by
-    have := drop_in_line pre L rest 0 (by omega); simpa using this
+    have := drop_in_line pre L rest 0 (by omega)
+    rw [Nat.add_zero, List.drop_zero] at this; exact this
   have hnl : ((pre.length : Nat) : Int) + ((countUntilNl (slice (pre ++ L ++ rest) (some ((pre.length : Nat) : Int)) none) : Nat) : Int)
       = ((pre.length + L.length : Nat) : Int) := by
     rw [slice_from_nat, hdrop, countUntilNl_gen L rest hL hrest]; omega
@@ -279,5 +280,159 @@ theorem last_adjacent (p L post : Str) (lf : Int)
   simp only [hst, slice_from_nat, drop_after_line, hntok, Bool.false_eq_true, if_false, Option.getD_some]
   rw [noNext_verdict pre L ('\n' :: post) hL (Or.inr rfl) hd]
   cases lineVerdict pre.length L <;> rfl
+
+theorem leadingWs_ws (w : Char) (ws : Str) (h : isSpaceC w = true) : leadingWs (w :: ws) ≠ 0 := by
+  simp [leadingWs, h]
+
+theorem drop_after_nl (A Z : Str) : (A ++ '\n' :: Z).drop (A.length + 1) = Z := by
+  have : A ++ '\n' :: Z = (A ++ ['\n']) ++ Z := by simp
+  rw [this, List.drop_append, List.drop_of_length_le (by simp), List.nil_append]
+  simp
+
+/-- **absorbed shape**: the last-token line is followed by white space (a blank line, an indented line).  Then
+    `_get_token_last_idx` does not look for the end of the section at all: it goes to the **last line of the whole
+    string** `Z` and returns the length of the string if `Z` starts with a token, else the start of `Z` after its
+    indentation (or the newline before `L` if `L` is `Raises:`). -/
+theorem last_absorbed (d p L post A Z : Str) (lf : Int)
+    (hd1 : d = p ++ ['\n'] ++ L ++ '\n' :: post) (hd2 : d = A ++ '\n' :: Z)
+    (hlf : lastDocStrToken d.toArray = some lf)
+    (hlo : ((p ++ ['\n']).length : Int) ≤ lf) (hhi : lf < ((p ++ ['\n']).length + L.length : Nat))
+    (hp : p ≠ []) (hL : '\n' ∉ L) (hZ : '\n' ∉ Z)
+    (hpost : ∃ w ws, post = w :: ws ∧ isSpaceC w = true)
+    (hd : (!L.isEmpty && allDashes L) = false)
+    (hfmt : deriveFormat d.toArray ≠ .numpydoc) :
+    tokenLastIdx d.toArray =
+      .ok (if startsWithAny tokensSet (lstrip Z) then (d.length : Int)
+           else (lineVerdict (p ++ ['\n']).length L).getD ((A.length + 1 + leadingWs Z : Nat) : Int)) := by
+  generalize hpre : p ++ ['\n'] = pre at *
+  have h2 : startOfLastFound d.toArray lf = .ok (some ((pre.length : Nat) : Int)) := by
+    subst hpre; rw [hd1]; exact startOfLastFound_line p L ('\n' :: post) lf hp hL hlo hhi
+  have h3 : endOfLastFound d.toArray lf (some ((pre.length : Nat) : Int)) (deriveFormat d.toArray)
+      = .ok (some ((pre.length + L.length + 1 : Nat) : Int)) := by
+    have := endOfLastFound_line pre L post lf (some ((pre.length : Nat) : Int)) (deriveFormat d.toArray) hL hlo hhi hfmt
+    rw [← hd1] at this; exact this
+  obtain ⟨w, ws, hw, hwsp⟩ := hpost
+  have hfe : findEndOfArgsReturns d.toArray (some ((pre.length + L.length + 1 : Nat) : Int)) = ((A.length + Z.length : Nat) : Int) := by
+    rw [findEnd_ws _ _ (by rw [hd1, drop_after_line, hw]; exact leadingWs_ws w ws hwsp)]
+    rw [hd2]; simp only [List.length_append, List.length_cons]; omega
+  have h4 : (loopA d.toArray).run (findEndOfArgsReturns d.toArray (some ((pre.length + L.length + 1 : Nat) : Int)))
+      = ((A.length : Int), .cond, Z.length + 1) := by
+    rw [hfe]
+    have := loopA_back A Z [] hZ Z.length (Nat.le_refl _)
+    rw [List.append_nil, ← hd2] at this; exact this
+  rw [tokenLastIdx_pipeline _ lf _ _ _ _ hlf h2 h3 h4]
+  have hdropA : d.drop (A.length + 1) = Z := by rw [hd2]; exact drop_after_nl A Z
+  have hidx : (A.length : Int) + 1 = ((A.length + 1 : Nat) : Int) := by omega
+  simp only [hidx, slice_from_nat, hdropA]
+  have hst : ((leadingWs Z : Nat) : Int) + (A.length : Int) + 1 = ((A.length + 1 + leadingWs Z : Nat) : Int) := by omega
+  have hdropS : d.drop (A.length + 1 + leadingWs Z) = lstrip Z := by
+    rw [← List.drop_drop, hdropA, drop_leadingWs]
+  simp only [hst, slice_from_nat, hdropS, Option.getD_some]
+  have hverd : (lastIdxIfNoNextTokenCount d.toArray ((pre.length : Nat) : Int)).1 = lineVerdict pre.length L := by
+    have := noNext_verdict pre L ('\n' :: post) hL (Or.inr rfl) hd
+    rw [← hd1] at this; exact this
+  by_cases htok : startsWithAny tokensSet (lstrip Z) = true
+  · simp only [htok, if_true]
+    obtain ⟨c, cs, hc, _⟩ := tok_head_ns _ htok
+    obtain ⟨wsZ, hwsZ⟩ := lstrip_decomp Z
+    have hwl : wsZ.length = leadingWs Z := by
+      have h1 := congrArg List.length hwsZ
+      have h2 := congrArg List.length (drop_leadingWs Z)
+      have h3 := leadingWs_le Z
+      simp only [List.length_append, List.length_drop] at h1 h2
+      omega
+    have hnl : '\n' ∉ lstrip Z := fun m => hZ (by rw [hwsZ]; exact List.mem_append_right _ m)
+    have h1 : 1 ≤ (lstrip Z).length := by rw [hc]; simp
+    obtain ⟨cb, hb⟩ := loopB_fwd (A ++ '\n' :: wsZ) (lstrip Z) [] hnl (Or.inl rfl) ((lstrip Z).length - 1) 1 (by omega)
+    have hdd : A ++ '\n' :: wsZ ++ (lstrip Z ++ []) = d := by
+      rw [hd2, List.append_nil, List.append_assoc, List.cons_append, ← hwsZ]
+    have hi : (((A ++ '\n' :: wsZ).length + 1 : Nat) : Int) = ((A.length + 1 + leadingWs Z : Nat) : Int) + 1 := by
+      simp only [List.length_append, List.length_cons]; omega
+    rw [hdd, hi] at hb
+    rw [hb]
+    have hce : (Exit.cond == Exit.raise) = false := rfl
+    have hlen : (A ++ '\n' :: wsZ).length + (lstrip Z).length = d.length := by
+      rw [← hdd]; simp only [List.length_append, List.length_cons, List.length_nil]; omega
+    have hne : (((A.length + 1 + leadingWs Z : Nat) : Int) == (((A ++ '\n' :: wsZ).length + (lstrip Z).length : Nat) : Int)) = false := by
+      simp only [List.length_append, List.length_cons, beq_eq_false_iff_ne, ne_eq]; omega
+    rw [hlen] at hne
+    simp only [hce, Bool.false_eq_true, if_false, hlen, hne]
+  · simp only [htok, Bool.false_eq_true, if_false]
+    rw [hverd]
+    cases lineVerdict pre.length L <;> rfl
+
+/-- **unterminated shape**: the last-token line `L` is the last line of the string and has no newline after it —
+    `_get_token_last_idx` is the length of the string if `L` starts (after indentation) with a token, else the start of
+    `L` after its indentation (or the newline before `L` if `L` is `Raises:`). -/
+theorem last_unterminated (p L : Str) (lf : Int)
+    (hlf : lastDocStrToken (p ++ ['\n'] ++ L).toArray = some lf)
+    (hlo : ((p ++ ['\n']).length : Int) ≤ lf) (hhi : lf < ((p ++ ['\n']).length + L.length : Nat))
+    (hp : p ≠ []) (hL : '\n' ∉ L)
+    (hd : (!L.isEmpty && allDashes L) = false)
+    (hfmt : deriveFormat (p ++ ['\n'] ++ L).toArray ≠ .numpydoc) :
+    tokenLastIdx (p ++ ['\n'] ++ L).toArray =
+      .ok (if startsWithAny tokensSet (lstrip L) then ((p ++ ['\n'] ++ L).length : Int)
+           else (lineVerdict (p ++ ['\n']).length L).getD (((p ++ ['\n']).length + leadingWs L : Nat) : Int)) := by
+  generalize hdd : p ++ ['\n'] ++ L = d at *
+  have hd2 : d = p ++ '\n' :: L := by rw [← hdd]; simp
+  generalize hpre : p ++ ['\n'] = pre at *
+  have hprelen : pre.length = p.length + 1 := by rw [← hpre]; simp
+  have h2 : startOfLastFound d.toArray lf = .ok (some ((pre.length : Nat) : Int)) := by
+    subst hpre
+    have := startOfLastFound_line p L [] lf hp hL hlo hhi
+    rw [List.append_nil, hdd] at this; exact this
+  have h3 : endOfLastFound d.toArray lf (some ((pre.length : Nat) : Int)) (deriveFormat d.toArray)
+      = .ok (some ((pre.length + L.length : Nat) : Int)) := by
+    have := endOfLastFound_lastline pre L lf (some ((pre.length : Nat) : Int)) (deriveFormat d.toArray) hL hlo hhi hfmt
+    rw [hdd] at this; exact this
+  have hdl : d.length = pre.length + L.length := by rw [← hdd]; simp
+  have hfe : findEndOfArgsReturns d.toArray (some ((pre.length + L.length : Nat) : Int)) = ((p.length + L.length : Nat) : Int) := by
+    rw [findEnd_ns _ _ (by rw [List.drop_of_length_le (by omega)]; rfl)]
+    omega
+  have h4 : (loopA d.toArray).run (findEndOfArgsReturns d.toArray (some ((pre.length + L.length : Nat) : Int)))
+      = ((p.length : Int), .cond, L.length + 1) := by
+    rw [hfe]
+    have := loopA_back p L [] hL L.length (Nat.le_refl _)
+    rw [List.append_nil, ← hd2] at this; exact this
+  rw [tokenLastIdx_pipeline _ lf _ _ _ _ hlf h2 h3 h4]
+  have hdropA : d.drop (p.length + 1) = L := by rw [hd2]; exact drop_after_nl p L
+  have hidx : (p.length : Int) + 1 = ((p.length + 1 : Nat) : Int) := by omega
+  simp only [hidx, slice_from_nat, hdropA]
+  have hst : ((leadingWs L : Nat) : Int) + (p.length : Int) + 1 = ((pre.length + leadingWs L : Nat) : Int) := by omega
+  have hdropS : d.drop (pre.length + leadingWs L) = lstrip L := by
+    rw [hprelen, ← List.drop_drop, hdropA, drop_leadingWs]
+  simp only [hst, slice_from_nat, hdropS, Option.getD_some]
+  have hverd : (lastIdxIfNoNextTokenCount d.toArray ((pre.length : Nat) : Int)).1 = lineVerdict pre.length L := by
+    have := noNext_verdict pre L [] hL (Or.inl rfl) hd
+    rw [List.append_nil, hdd] at this; exact this
+  by_cases htok : startsWithAny tokensSet (lstrip L) = true
+  · simp only [htok, if_true]
+    obtain ⟨c, cs, hc, _⟩ := tok_head_ns _ htok
+    obtain ⟨wsZ, hwsZ⟩ := lstrip_decomp L
+    have hwl : wsZ.length = leadingWs L := by
+      have h1 := congrArg List.length hwsZ
+      have h2 := congrArg List.length (drop_leadingWs L)
+      have h3 := leadingWs_le L
+      simp only [List.length_append, List.length_drop] at h1 h2
+      omega
+    have hnl : '\n' ∉ lstrip L := fun m => hL (by rw [hwsZ]; exact List.mem_append_right _ m)
+    have h1 : 1 ≤ (lstrip L).length := by rw [hc]; simp
+    obtain ⟨cb, hb⟩ := loopB_fwd (p ++ '\n' :: wsZ) (lstrip L) [] hnl (Or.inl rfl) ((lstrip L).length - 1) 1 (by omega)
+    have hdd' : p ++ '\n' :: wsZ ++ (lstrip L ++ []) = d := by
+      rw [hd2, List.append_nil, List.append_assoc, List.cons_append, ← hwsZ]
+    have hi : (((p ++ '\n' :: wsZ).length + 1 : Nat) : Int) = ((pre.length + leadingWs L : Nat) : Int) + 1 := by
+      simp only [List.length_append, List.length_cons]; omega
+    rw [hdd', hi] at hb
+    rw [hb]
+    have hce : (Exit.cond == Exit.raise) = false := rfl
+    have hlen : (p ++ '\n' :: wsZ).length + (lstrip L).length = d.length := by
+      rw [← hdd']; simp only [List.length_append, List.length_cons, List.length_nil]; omega
+    have hne : (((pre.length + leadingWs L : Nat) : Int) == (((p ++ '\n' :: wsZ).length + (lstrip L).length : Nat) : Int)) = false := by
+      simp only [List.length_append, List.length_cons, beq_eq_false_iff_ne, ne_eq]; omega
+    rw [hlen] at hne
+    simp only [hce, Bool.false_eq_true, if_false, hlen, hne]
+  · simp only [htok, Bool.false_eq_true, if_false]
+    rw [hverd]
+    cases lineVerdict pre.length L <;> rfl
 
 end DSS
